@@ -28,6 +28,29 @@
 (*             on), CutEof (truncated inside the frame, then EOF), Trunc   *)
 (*             (EOF at a frame boundary).                                  *)
 (*                                                                         *)
+(*  Other(who, k) a Write of size class k between two calls of this        *)
+(*             direction: on the REVERSE direction of the same session     *)
+(*             pair ("rev") or on a second live session pair ("peer").     *)
+(*             No effect on this direction's state - that is the point:    *)
+(*             all sessions of a process share one buffer pool, so the     *)
+(*             replay drives it in every reader state (queue kept, partly  *)
+(*             read, released) and any aliasing of a retained buffer shows *)
+(*             up as altered bytes.                                        *)
+(*  Glitch(kind) what io.Reader / io.Writer allow the underlying           *)
+(*             connection besides short reads, one per behaviour: the next *)
+(*             bytes arrive TOGETHER with a timeout error ("dataerr"), a   *)
+(*             temporary error arrives before any byte ("temperr"), the    *)
+(*             next write is cut short with an error ("shortwrite").  A    *)
+(*             read glitch may be swallowed (io.ReadFull got enough),      *)
+(*             surface later (bufio keeps it) or lose bytes inside a frame *)
+(*             (then the reader fails from there on): the model goes on as *)
+(*             if intact and marks everything after it `loose` - only the  *)
+(*             statement's clauses are judged there: what is delivered is  *)
+(*             a prefix of what was accepted, garbling never.  A short     *)
+(*             write leaves a partial frame (a self-inflicted cut), the    *)
+(*             nonce is spent, nothing of that Write is accepted, and the  *)
+(*             writer stops.                                               *)
+(*                                                                         *)
 (* Decryption succeeds iff the frame is untouched and was sealed with the  *)
 (* nonce the reader is at (flynn/noise CipherState: the nonce advances     *)
 (* only on success, so after a duplicate or a swapped pair the reader gets *)
@@ -42,7 +65,9 @@ CONSTANTS Tag,        \* authentication tag length in units (real: 16)
           Bufs,       \* read-buffer sizes
           Shorts,     \* short-read classes of the underlying connection (0 = none)
           Faults,     \* fault kinds enabled in this instance
-          MaxFaults   \* faults per behaviour
+          MaxFaults,  \* faults per behaviour
+          Others,     \* subset of {"rev", "peer"}: writes elsewhere between the calls of this direction
+          Glitches    \* subset of {"dataerr", "temperr", "shortwrite"}
 
 VARIABLES nsent,      \* units accepted by Write so far; the payload is <<1, ..., nsent>>
           wnonce,     \* writer's nonce counter (= frames sealed)
@@ -59,12 +84,17 @@ VARIABLES nsent,      \* units accepted by Write so far; the payload is <<1, ...
           nfault,     \* faults injected so far
           errPos,     \* ghost: units that precede the first fault (MaxSent + 1: none)
           stopPos,    \* ghost: the same for faults other than dup/swap (the reader cannot get past those)
+          rg,         \* armed read glitch: "none", "dataerr", "temperr"
+          wg,         \* armed short write
+          loose,      \* a read glitch reached the reader: from here on only the statement's clauses are judged
+          nglitch,    \* glitches armed so far
+          wdead,      \* a Write failed: the writer stops
           op
 
 vars == <<nsent, wnonce, wire, closed, qlive, qbuf, qseek, rnonce, broken, delivered, rdErr, under,
-          nfault, errPos, stopPos, op>>
+          nfault, errPos, stopPos, rg, wg, loose, nglitch, wdead, op>>
 View == <<nsent, wnonce, wire, closed, qlive, qbuf, qseek, rnonce, broken, delivered, rdErr, under,
-          nfault, errPos, stopPos>>
+          nfault, errPos, stopPos, rg, wg, loose, nglitch, wdead>>
 
 Min(a, b) == IF a < b THEN a ELSE b
 Sent == [i \in 1..nsent |-> i]
@@ -74,6 +104,7 @@ NoFault == MaxSent + 1
 Init == /\ nsent = 0 /\ wnonce = 0 /\ wire = <<>> /\ closed = FALSE
         /\ qlive = FALSE /\ qbuf = <<>> /\ qseek = 0 /\ rnonce = 0 /\ broken = FALSE
         /\ delivered = <<>> /\ rdErr = FALSE /\ under = 0 /\ nfault = 0 /\ errPos = NoFault /\ stopPos = NoFault
+        /\ rg = "none" /\ wg = FALSE /\ loose = FALSE /\ nglitch = 0 /\ wdead = FALSE
         /\ op = [name |-> "init"]
 
 ----------------------------------------------------------------------------
@@ -87,14 +118,24 @@ Frame(base, n0, k, j) ==
   IN [n |-> n0 + j - 1, pt |-> [i \in 1..(hi - lo + 1) |-> lo + i - 1], st |-> "ok"]
 
 Write(k) ==
-  /\ ~closed
+  /\ ~closed /\ ~wdead
   /\ nsent + k <= MaxSent
-  /\ LET fs == [j \in 1..NFrames(k) |-> Frame(nsent, wnonce, k, j)] IN
-       /\ wire' = wire \o fs
-       /\ wnonce' = wnonce + NFrames(k)
-       /\ nsent' = nsent + k
-       /\ op' = [name |-> "write", k |-> k, n |-> k, frames |-> [j \in 1..NFrames(k) |-> Len(fs[j].pt)]]
-  /\ UNCHANGED <<closed, qlive, qbuf, qseek, rnonce, broken, delivered, rdErr, under, nfault, errPos, stopPos>>
+  /\ IF wg
+       THEN \* the first frame is cut short by the connection: Write returns (0, error)
+            LET f == [Frame(nsent, wnonce, k, 1) EXCEPT !.st = "cut"] IN
+            /\ wire' = Append(wire, f)
+            /\ wnonce' = wnonce + 1 /\ nsent' = nsent
+            /\ wg' = FALSE /\ wdead' = TRUE
+            /\ nfault' = nfault + 1 /\ errPos' = Min(errPos, nsent) /\ stopPos' = Min(stopPos, nsent)
+            /\ op' = [name |-> "write", k |-> k, n |-> 0, short |-> TRUE, frames |-> <<Len(f.pt)>>]
+       ELSE LET fs == [j \in 1..NFrames(k) |-> Frame(nsent, wnonce, k, j)] IN
+            /\ wire' = wire \o fs
+            /\ wnonce' = wnonce + NFrames(k)
+            /\ nsent' = nsent + k
+            /\ op' = [name |-> "write", k |-> k, n |-> k, short |-> FALSE,
+                      frames |-> [j \in 1..NFrames(k) |-> Len(fs[j].pt)]]
+            /\ UNCHANGED <<wg, wdead, nfault, errPos, stopPos>>
+  /\ UNCHANGED <<closed, qlive, qbuf, qseek, rnonce, broken, delivered, rdErr, under, rg, loose, nglitch>>
 
 ----------------------------------------------------------------------------
 (* Reader *)
@@ -113,8 +154,8 @@ ReadQueued(b) ==
              THEN qlive' = FALSE /\ qbuf' = <<>> /\ qseek' = 0      \* released
              ELSE qlive' = TRUE /\ qbuf' = qbuf /\ qseek' = qseek + c
         /\ op' = [name |-> "read", b |-> b, path |-> "queued", rel |-> RelQ(b, rem), n |-> c, err |-> FALSE,
-                  frame |-> 0]
-  /\ UNCHANGED <<nsent, wnonce, wire, closed, rnonce, broken, rdErr, under, nfault, errPos, stopPos>>
+                  frame |-> 0, glitch |-> "none", loose |-> loose]
+  /\ UNCHANGED <<nsent, wnonce, wire, closed, rnonce, broken, rdErr, under, nfault, errPos, stopPos, rg, wg, loose, nglitch, wdead>>
 
 Opens(f) == f.st = "ok" /\ f.n = rnonce /\ ~broken
 
@@ -144,15 +185,17 @@ ReadFrame(b) ==
                   path |-> IF inplace THEN "inplace" ELSE "pooled",
                   rel |-> RelF(b, pt),
                   n |-> IF ~good THEN 0 ELSE IF inplace THEN pt ELSE c,
-                  err |-> ~good, frame |-> pt]
-  /\ UNCHANGED <<nsent, wnonce, closed, under, nfault, errPos, stopPos>>
+                  err |-> ~good, frame |-> pt, glitch |-> rg, loose |-> (loose \/ rg # "none")]
+  /\ rg' = "none" /\ loose' = (loose \/ rg # "none")        \* an armed glitch hits the read of the wire
+  /\ UNCHANGED <<nsent, wnonce, closed, under, nfault, errPos, stopPos, wg, nglitch, wdead>>
 
 \* nothing in flight and the wire has ended, or framing is lost and the wire ran dry: error, nothing delivered
 ReadEnd(b) ==
   /\ ~qlive /\ wire = <<>> /\ (closed \/ broken)
   /\ rdErr' = TRUE
-  /\ op' = [name |-> "read", b |-> b, path |-> "end", rel |-> "any", n |-> 0, err |-> TRUE, frame |-> 0]
-  /\ UNCHANGED <<nsent, wnonce, wire, closed, qlive, qbuf, qseek, rnonce, broken, delivered, under, nfault, errPos, stopPos>>
+  /\ op' = [name |-> "read", b |-> b, path |-> "end", rel |-> "any", n |-> 0, err |-> TRUE, frame |-> 0,
+            glitch |-> "none", loose |-> loose]
+  /\ UNCHANGED <<nsent, wnonce, wire, closed, qlive, qbuf, qseek, rnonce, broken, delivered, under, nfault, errPos, stopPos, rg, wg, loose, nglitch, wdead>>
 
 Read(b) == ReadQueued(b) \/ ReadFrame(b) \/ ReadEnd(b)
 
@@ -160,7 +203,7 @@ Short(k) ==
   /\ k # under
   /\ under' = k
   /\ op' = [name |-> "short", k |-> k]
-  /\ UNCHANGED <<nsent, wnonce, wire, closed, qlive, qbuf, qseek, rnonce, broken, delivered, rdErr, nfault, errPos, stopPos>>
+  /\ UNCHANGED <<nsent, wnonce, wire, closed, qlive, qbuf, qseek, rnonce, broken, delivered, rdErr, nfault, errPos, stopPos, rg, wg, loose, nglitch, wdead>>
 
 ----------------------------------------------------------------------------
 (* Wire faults, on a frame still in flight *)
@@ -172,7 +215,7 @@ Remove(i) == SubSeq(wire, 1, i - 1) \o SubSeq(wire, i + 1, Len(wire))
 
 Fault(kind, i) ==
   /\ kind \in Faults
-  /\ nfault < MaxFaults
+  /\ nfault < MaxFaults /\ nglitch = 0
   /\ ~closed
   /\ i \in 1..Len(wire)
   /\ wire[i].st = "ok"
@@ -191,9 +234,26 @@ Fault(kind, i) ==
   /\ stopPos' = IF kind \in {"dup", "swap"} THEN stopPos ELSE Min(stopPos, Before(i))
   /\ nfault' = nfault + 1
   /\ op' = [name |-> "fault", kind |-> kind, i |-> i, of |-> Len(wire)]
-  /\ UNCHANGED <<nsent, wnonce, qlive, qbuf, qseek, rnonce, broken, delivered, rdErr, under>>
+  /\ UNCHANGED <<nsent, wnonce, qlive, qbuf, qseek, rnonce, broken, delivered, rdErr, under, rg, wg, loose, nglitch, wdead>>
+
+\* a Write somewhere else in the process, between two calls of this direction
+Other(who, k) ==
+  /\ who \in Others
+  /\ op' = [name |-> "other", who |-> who, k |-> k]
+  /\ UNCHANGED View
+
+Glitch(kind) ==
+  /\ kind \in Glitches /\ nglitch = 0 /\ nfault = 0 /\ ~closed /\ ~rdErr
+  /\ \/ kind \in {"dataerr", "temperr"} /\ rg' = kind /\ wg' = wg
+     \/ kind = "shortwrite" /\ wg' = TRUE /\ rg' = rg
+  /\ nglitch' = 1
+  /\ op' = [name |-> "glitch", kind |-> kind]
+  /\ UNCHANGED <<nsent, wnonce, wire, closed, qlive, qbuf, qseek, rnonce, broken, delivered, rdErr, under,
+                 nfault, errPos, stopPos, loose, wdead>>
 
 Next == \/ \E k \in 1..MaxWrite : Write(k)
+        \/ \E who \in Others, k \in {1, MaxPT} : Other(who, k)
+        \/ \E kind \in Glitches : Glitch(kind)
         \/ \E b \in Bufs : Read(b)
         \/ \E k \in Shorts : Short(k)
         \/ \E kind \in Faults, i \in 1..Len(wire) : Fault(kind, i)
